@@ -228,7 +228,31 @@ func c05Tags(expr string) (tags []string) {
 	return tags
 }
 
+// c05Seen remembers rule texts checked earlier in this process for the
+// second-use re-checks after a churn phase.
+var (
+	c05Seen    []string
+	c05Checked int
+)
+
 func c05CheckRule(c *core.Ctx, text string, walks int, useMatch bool) {
+	c05Checked++
+	if len(c05Seen) < 2048 {
+		c05Seen = append(c05Seen, text)
+	} else {
+		c05Seen[c.Rng.Intn(len(c05Seen))] = text
+	}
+	if c05Checked%150 == 0 && !c.Env.Replay {
+		churnRules(c, 9000)
+		for k := 0; k < 5; k++ {
+			c05CheckOne(c, c05Seen[c.Rng.Intn(len(c05Seen))], walks, false)
+		}
+		c.Event("second_use_rechecks_after_churn", 5)
+	}
+	c05CheckOne(c, text, walks, useMatch)
+}
+
+func c05CheckOne(c *core.Ctx, text string, walks int, useMatch bool) {
 	r, err := rules.NewNetworkRule(text, 1)
 	if err != nil {
 		c.Inconclusive("rule-rejected-by-parser")
